@@ -58,6 +58,21 @@ static void* torn_writer(void* a) { long i; (void)a; pthread_barrier_wait(&bar);
 static void* torn_reader(void* a) { (void)a; pthread_barrier_wait(&bar);
     while (!hstop) { U64 x = hld(inst[1], haddr, 0, 0) & hmask; if (x != 0 && x != (TORN_P1 & hmask) && x != (TORN_P2 & hmask)) hbad++; }
     return NULL; }
+/* accesses of DIFFERENT widths to one cell at the same time: two threads own the outer bytes of a 32-bit cell (8-bit additions through
+ * the i32 and the i64 flavour), a third adds to its two middle bytes with a 32-bit addition (0x100, fewer than 65536 times: no carry
+ * leaves them).  Memory is bytes: nobody's additions may be lost, in either byte order of the host. */
+static void* wm_byte(void* arg) { long me = (long)arg, i; fn f = lookup(me == 0 ? "add8" : "add8l"); pthread_barrier_wait(&bar);
+    for (i = 0; i < hn; i++) (void)f(inst[me], 96 + (me == 0 ? 0 : 3), 1, 0);
+    return NULL; }
+static void* wm_word(void* arg) { long me = (long)arg, i; fn f = lookup(me == 2 ? "add32" : "add32l"); pthread_barrier_wait(&bar);
+    for (i = 0; i < hn; i++) (void)f(inst[me], 96, 0x100, 0);
+    return NULL; }
+/* the i32 and the i64 flavour of one access width are the same access: threads using either add to one cell, which lies at a multiple of
+ * the access width that is not a multiple of 4 resp. 8 */
+static fn fm_f[2]; static U32 fm_addr;
+static void* fm_adder(void* arg) { long me = (long)arg, i; pthread_barrier_wait(&bar);
+    for (i = 0; i < hn; i++) (void)fm_f[me & 1](inst[me], fm_addr, 1, 0);
+    return NULL; }
 static fn hxchg; static U64 hdrained; static volatile long hadders;
 static void* mix_adder(void* arg) { long me = (long)arg, i; pthread_barrier_wait(&bar);
     for (i = 0; i < hn; i++) (void)hf(inst[me], haddr, 1, 0);
@@ -217,6 +232,35 @@ int main(int argc, char** argv) {
             want = ((U64)(nt - 1) * (U64)hn) & hmask;
             printf("{\"op\":\"mixrmw%s\",\"threads\":%d,\"per_thread\":%ld,\"lost\":%llu,\"bad_final\":%d}\n", tags[k], nt, hn,
                    (unsigned long long)((want - ((hdrained + final) & hmask)) & hmask), ((hdrained + final) & hmask) != want);
+        }
+        if (nt >= 2) {
+            static const char* ft[] = {"8", "16", "32"}; static const U32 fa[3][2] = {{97, 103}, {98, 110}, {100, 116}}; static const U64 fmk[] = {0xFF, 0xFFFF, 0xFFFFFFFFu};
+            int w, ai; long t2; char nm[16];
+            for (w = 0; w < 3; w++) for (ai = 0; ai < 2; ai++) {
+                U64 final, want = ((U64)nt * (U64)hn) & fmk[w];
+                snprintf(nm, sizeof nm, "add%s", ft[w]); fm_f[0] = lookup(nm); snprintf(nm, sizeof nm, "add%sl", ft[w]); fm_f[1] = lookup(nm);
+                fm_addr = fa[w][ai];
+                snprintf(nm, sizeof nm, "st%s", ft[w]); lookup(nm)(&root, fm_addr, 0, 0);
+                pthread_barrier_init(&bar, NULL, (unsigned)nt);
+                for (t2 = 0; t2 < nt; t2++) pthread_create(&th[t2], NULL, fm_adder, (void*)t2);
+                for (t2 = 0; t2 < nt; t2++) pthread_join(th[t2], NULL);
+                snprintf(nm, sizeof nm, "ld%s", ft[w]); final = lookup(nm)(&root, fm_addr, 0, 0) & fmk[w];
+                printf("{\"op\":\"flavourmix%s@%u\",\"threads\":%d,\"per_thread\":%ld,\"lost\":%llu,\"bad_final\":%d}\n", ft[w], fm_addr, nt, hn,
+                       (unsigned long long)((want - final) & fmk[w]), final != want);
+            }
+        }
+        if (nt >= 3) {
+            long saved = hn, t2; U64 b0, b3, mid;
+            if (hn > 60000) hn = 60000;
+            lookup("st32")(&root, 96, 0, 0);
+            pthread_barrier_init(&bar, NULL, 3);
+            pthread_create(&th[0], NULL, wm_byte, (void*)0L); pthread_create(&th[1], NULL, wm_byte, (void*)1L); pthread_create(&th[2], NULL, wm_word, (void*)2L);
+            for (t2 = 0; t2 < 3; t2++) pthread_join(th[t2], NULL);
+            b0 = lookup("ld8")(&root, 96, 0, 0) & 0xFF; b3 = lookup("ld8")(&root, 99, 0, 0) & 0xFF; mid = (lookup("ld32")(&root, 96, 0, 0) >> 8) & 0xFFFF;
+            printf("{\"op\":\"widthmix\",\"threads\":3,\"per_thread\":%ld,\"lost\":%llu,\"bad_final\":%d}\n", hn,
+                   (unsigned long long)((((U64)hn & 0xFF) - b0) & 0xFF) + ((((U64)hn & 0xFF) - b3) & 0xFF) + ((((U64)hn & 0xFFFF) - mid) & 0xFFFF),
+                   b0 != ((U64)hn & 0xFF) || b3 != ((U64)hn & 0xFF) || mid != ((U64)hn & 0xFFFF));
+            hn = saved;
         }
         for (k = 0; k < 7; k++) for (mode = 0; mode < 2; mode++) {
             char name[16]; U64 total = (U64)nt * (U64)hn, lost = 0, final; U64* all; U64 j, n = 0; int bad_final = 0;
